@@ -8,6 +8,7 @@ type FileIO struct {
 }
 
 func NewFileIO(fileName string) (*FileIO, error) {
+	verifEvent("open", fileName, nil, 0)
 	// 打开文件, 不存在则创建
 	fd, err := os.OpenFile(
 		fileName,
@@ -25,14 +26,18 @@ func (fio *FileIO) Read(b []byte, offset int64) (int, error) {
 }
 
 func (fio *FileIO) Write(b []byte) (int, error) {
+	verifEvent("write", fio.fd.Name(), b, int64(len(b)))
 	return fio.fd.Write(b)
 }
 
 func (fio *FileIO) Sync() error {
+	verifEvent("sync", fio.fd.Name(), nil, 0)
 	return fio.fd.Sync()
 }
 
 func (fio *FileIO) Close() error {
+	verifEvent("sync", fio.fd.Name(), nil, 0)
+	verifEvent("close", fio.fd.Name(), nil, 0)
 	// 接口约定关闭之前进行持久化
 	if err := fio.fd.Sync(); err != nil {
 		return err
